@@ -393,7 +393,15 @@ void World::audit()
     std::string F = fam();
     RawDb a;
     std::string main_path = v2 ? dir + "/Database2/m.db" : dir + "/m.db";
-    if (!a.open(main_path))
+    // a journal left behind by a failed call (its rollback could not complete): a reader that comes across it plays it
+    // back, as Engine would - which a read-only connection cannot do
+    bool hot = false;
+    for (auto& kv : g_disk.files)
+        if (kv.first.size() > 8 && kv.first.compare(kv.first.size() - 8, 8, "-journal") == 0 && !kv.second->bytes.empty())
+            hot = true;
+    if (hot)
+        probes.hit("audit_recovers_hot_journal");
+    if (!a.open(main_path, !hot))
     {
         report("C11", "C11|open|" + F + "|failed", "auditor cannot open " + main_path + ": " + a.err);
         return;
